@@ -115,12 +115,25 @@ def gen():
     print(len(cands), 'candidates', by)
 
 
-def sh(cmd, cwd, timeout=900):
+def run_group(cmd, cwd=None, env=None, timeout=900, shell=False):
+    """run in its own process group; on timeout kill the whole group (a mutant may loop forever)"""
+    import signal
+    p = subprocess.Popen(cmd, cwd=cwd, env=env or ENV, shell=shell, stdout=subprocess.PIPE, stderr=subprocess.PIPE, start_new_session=True)
     try:
-        p = subprocess.run(cmd, cwd=cwd, env=ENV, shell=True, stdout=subprocess.PIPE, stderr=subprocess.STDOUT, timeout=timeout)
-        return p.returncode, p.stdout.decode(errors='replace')
+        o, e = p.communicate(timeout=timeout)
+        return p.returncode, o, e
     except subprocess.TimeoutExpired:
-        return 124, 'timeout'
+        try:
+            os.killpg(p.pid, signal.SIGKILL)
+        except ProcessLookupError:
+            pass
+        o, e = p.communicate()
+        return 124, o, e + b'\ntimeout'
+
+
+def sh(cmd, cwd, timeout=900):
+    code, o, e = run_group(cmd, cwd=cwd, timeout=timeout, shell=True)
+    return code, (o + e).decode(errors='replace')
 
 
 def worktree(k):
@@ -210,15 +223,20 @@ def checks(jobs):
             os.makedirs(out)
             env = dict(ENV, VERIF_REPO_PATH=w, VERIF_OUT=out, VERIF_SCRATCH_BUILD=w + '/.pqsim-shadow', VERIF_WORKERS=str(max(4, 16 // jobs)))
             for chk in ORDER:
-                p = subprocess.run(['/verif/check', chk, 'quick'], env=env, stdout=subprocess.PIPE, stderr=subprocess.PIPE)
-                r['ran'].append((chk, p.returncode))
-                if p.returncode == 1 and b'VIOLATION' in p.stdout:
-                    m = re.search(rb'violation \[([a-z_0-9A-Z()]+)\]', p.stderr)
+                code, so, se = run_group(['/verif/check', chk, 'quick'], env=env, timeout=1500)
+                r['ran'].append((chk, code))
+                if code == 1 and b'VIOLATION' in so:
+                    m = re.search(rb'violation \[([a-z_0-9A-Z()]+)\]', se)
                     r['detected_by'] = chk
                     r['class'] = m.group(1).decode() if m else '?'
                     break
-                if p.returncode not in (0, 1):
-                    r['class'] = 'harness exit %d: %s' % (p.returncode, p.stderr.decode(errors='replace')[-300:])
+                if code == 124:
+                    # the simulation did not finish: the change makes some operation loop forever
+                    r['detected_by'] = chk
+                    r['class'] = 'hang (no result within 25 min; killed)'
+                    break
+                if code not in (0, 1):
+                    r['class'] = 'harness exit %d: %s' % (code, se.decode(errors='replace')[-300:])
             shutil.rmtree(out, ignore_errors=True)
         except Exception as e:
             r['class'] = 'error: %s' % e
